@@ -56,6 +56,11 @@ fn main() {
                 "builder" => builder::run_builder_scenario(&v, idx, &mut out),
                 "rebuild" => builder::run_rebuild_scenario(&v, idx, &mut out),
                 "writer" => builder::run_writer_scenario(&v, idx, &mut out),
+                "writerp" => {
+                    let sid = v["sid"].as_str().unwrap_or("scn").to_string();
+                    let ps: Vec<builder::Payload> = v["ps"].as_array().unwrap().iter().map(builder::payload_from).collect();
+                    builder::run_writer_persistent(&sid, v.get("tag").unwrap_or(&serde_json::json!({"g": "scenario"})), &ps, &mut out)
+                }
                 "format" => misc::run_format_scenario(&v, idx, &mut out),
                 "convert" => misc::run_convert(&v, idx, &mut out),
                 "iptext" => misc::run_iptext(&v, idx, &mut out),
